@@ -110,6 +110,10 @@ int c_dateutils_getdate(double day, int * date)
 {
     int year, month, nday, nbday;
 
+    /* Reject values that cannot be converted to a date (nan included) */
+    if(!(day >= 0 && day < 1e9))
+        return DATEUTILS_ERROR + __LINE__;
+
     year = (int)(day * 1e-4);
     month = (int)(day * 1e-2) - year * 100;
     nday = (int)(day) - year * 10000 - month * 100;
